@@ -2,7 +2,7 @@ package main
 
 // Property -> rules. Each property lists the clauses its rules decide and, plainly, what they do not.
 func init() {
-	prop("C01", []string{"R1"},
+	prop("C01", []string{"R1", "R66"},
 		"the whole statement in the form `no public operation writes memory that existed before it started` (R1 over every public root: receiver, arguments and every frame, grouper or view that shares storage with them stay bit-for-bit unchanged for every sharing history; append on a prestate slice counts as a write).",
 		"nothing is excluded; the verdict rests on the points-to abstraction (allocation-site objects, folded recursive paths, by-value nesting bounded at 5) and on the library summary table.",
 		"New keeps the caller's slices by reference: a caller who later writes them alters the frame (caller's write, outside the property)")
@@ -33,7 +33,7 @@ func init() {
 	prop("C10", []string{"R20", "R21", "R22", "R23", "R17", "R18", "R31", "R41", "R39", "R46", "R52"},
 		"stickiness without callbacks, Len() = -1 on error, writers refuse errored frames (R20); dynamic union types are decoded without a panicking construct: table lookups are comma-ok before the call (R21), non-comma-ok type assertions and explicit panics equal the frozen documented lists (R22, R23); illegal names and bad slice bounds are rejected (R17, R18); errors from column kernels reach Err (R31); results of failing calls are not used before the error test (R41); names are validated before any early success return (R39).",
 		"absence of implicit panics in general (index out of range, nil dereference) beyond the specific ones above; nil FilterClause/Expression arguments and zero-value clause structs.")
-	prop("C11", []string{"R1", "R2", "R47"},
+	prop("C11", []string{"R1", "R2", "R47", "R65"},
 		"race freedom for every schedule by a frame-rule argument: locations reachable by two operations are prestate of both or global; no public operation writes prestate (R1) or package-level state, the library starts no goroutine, uses no sync primitive and holds no private random generator (R2); every other write targets objects allocated inside the operation.",
 		"nothing is excluded, but the argument is only as good as its assumptions; no happens-before detector is used (different technique).",
 		"math/rand top-level functions and *regexp.Regexp are goroutine safe (documented)")
